@@ -316,3 +316,27 @@ package inference
 //@ ensures relativised-exactly-once (let ((raw (call |(*go/token.FileSet).PositionFor| p.pass.Fset pos false)))
 //@    (and (= result.Filename (call |go.uber.org/nilaway/util/tokenhelper.RelToCwd| (. raw Filename)))
 //@         (= result.Offset (. raw Offset)) (= result.Line (. raw Line)) (= result.Column (. raw Column))))
+
+//@ -- C05/C20 (CT): controlled triggers. controls(e, s, t): trigger t waits for site s to become nilable.
+//@ method go.uber.org/nilaway/annotation.FullTrigger Controlled fn
+//@ define (controls e s t) (and (mapin e.controlledTriggersBySite s) (mtrue (mapget e.controlledTriggersBySite s) t))
+//@ define (ctrlOK e) (and (not (= e.controlledTriggersBySite nil)) (forall ((s primitiveSite)) (=> (mapin e.controlledTriggersBySite s) (not (= (mapget e.controlledTriggersBySite s) nil)))))
+//@ define (ctrlSite e t) (call |(*primitivizer).site| e.primitive (iface *annotation.CallSiteParamAnnotationKey (. t Controller)) false)
+//@ define (isControlled t) (not (= (. t Controller) nil))
+
+//@ func (*Engine).buildPkgInferenceMap
+//@ prop C05 C20
+//@ requires (and (engOK e) (=> (not (= e.controlledTriggersBySite nil)) (ctrlOK e)))
+//@ modifies (obj e) (map e.controlledTriggersBySite) (map (mapget e.controlledTriggersBySite (zero primitiveSite))) (map e.primitive.objPathCache) (obj e.inferredMap.mapping) (map e.inferredMap.mapping.inner) (elems e.inferredMap.mapping.Pairs) (obj (omPair e.inferredMap.mapping 0)) (obj (implOf e.inferredMap)) (map (. (implOf e.inferredMap) inner)) (elems (. (implOf e.inferredMap) Pairs)) (obj (omPair (implOf e.inferredMap) 0))
+//@ ensures ok-after (and (engOK e) (= e.inferredMap (old e.inferredMap)) (= e.primitive (old e.primitive)) (ctrlOK e))
+//@ ensures earlier-registrations-are-kept (forall ((s primitiveSite) (t annotation.FullTrigger)) (=> (old (controls e s t)) (controls e s t)))
+//@ ensures every-controlled-trigger-is-registered (forall ((k Int)) (=> (and (<= 0 k) (< k (len triggers)) (isControlled (idx triggers k))) (controls e (ctrlSite e (idx triggers k)) (idx triggers k))))
+//@ ensures determined-kept (determinedKept e)
+//@ loop 0 invariant registering (and (engOK e) (= e.inferredMap (old e.inferredMap)) (= e.primitive (old e.primitive)) (ctrlOK e) (<= -1 rangeindex) (< rangeindex (len triggers))
+//@    (forall ((s primitiveSite) (t annotation.FullTrigger)) (=> (old (controls e s t)) (controls e s t)))
+//@    (forall ((k Int)) (=> (and (<= 0 k) (<= k rangeindex) (isControlled (idx triggers k))) (controls e (ctrlSite e (idx triggers k)) (idx triggers k))))
+//@    (determinedKept e))
+//@ loop 1 invariant building (and (engOK e) (= e.inferredMap (old e.inferredMap)) (= e.primitive (old e.primitive)) (ctrlOK e)
+//@    (forall ((s primitiveSite) (t annotation.FullTrigger)) (=> (old (controls e s t)) (controls e s t)))
+//@    (forall ((k Int)) (=> (and (<= 0 k) (< k (len triggers)) (isControlled (idx triggers k))) (controls e (ctrlSite e (idx triggers k)) (idx triggers k))))
+//@    (determinedKept e))
